@@ -10,6 +10,7 @@ import (
 	"image/jpeg"
 	"math/rand/v2"
 	"regexp"
+	"sort"
 	"strconv"
 	"strings"
 	"sync"
@@ -288,7 +289,7 @@ func sinkObjects() map[int]sinkObj {
 		36: {raw: "/DeviceGray"},
 		37: {raw: "/Identity"},
 		41: {dict: "/ShadingType 2 /ColorSpace 36 0 R /Coords [0 0 1 1] /Function [12 0 R 12 0 R 13 0 R 13 0 R] /Extend [true true]"},
-		3: {dict: "/Type /Page /Parent 2 0 R /MediaBox [0 0 200 200] /Contents [4 0 R 21 0 R] /Resources << /Font << /F1 5 0 R /F3 22 0 R >> " +
+		3: {dict: "/Type /Page /Parent 2 0 R /MediaBox [0 0 200 200] /Contents [4 0 R 21 0 R] /Resources << /Font << /F1 5 0 R /F3 22 0 R /F0 24 0 R >> " +
 			"/ColorSpace << /CS0 [/ICCBased 10 0 R] /Pat [/Pattern /DeviceRGB] >> /Shading << /Sh0 11 0 R /Sh1 15 0 R >> " +
 			"/XObject << /Im0 14 0 R /Fm0 18 0 R >> /Pattern << /Pt0 17 0 R >> /ExtGState << /P0 << /Type /ExtGState /SMask << /Type /Mask /S /Luminosity /G 18 0 R >> >> " +
 			// the same indirect object, whose decoded value is nil / a default, used twice
@@ -319,6 +320,10 @@ func sinkObjects() map[int]sinkObj {
 		20: {dict: "/Type /Metadata /Subtype /XML", body: []byte(xmp), site: "metadata"},
 		22: {dict: "/Type /Font /Subtype /Type3 /FontBBox [0 0 10 10] /FontMatrix [0.1 0 0 0.1 0 0] /CharProcs << /a 23 0 R >> /Encoding << /Type /Encoding /Differences [97 /a] >> /FirstChar 97 /LastChar 97 /Widths [10] /Resources << >>"},
 		23: {dict: "", body: []byte("10 0 d0 0 0 5 5 re f\n"), site: "charproc"},
+		24: {dict: "/Type /Font /Subtype /Type0 /BaseFont /Test0 /Encoding /Identity-H /DescendantFonts [25 0 R] /ToUnicode 8 0 R"},
+		25: {dict: "/Type /Font /Subtype /CIDFontType2 /BaseFont /Test0 /CIDSystemInfo << /Registry (Adobe) /Ordering (Identity) /Supplement 0 >> " +
+			"/FontDescriptor 26 0 R /DW 1000 /W [1 [500 600] 5 7 400] /CIDToGIDMap /Identity"},
+		26: {dict: "/Type /FontDescriptor /FontName /Test0 /Flags 4 /FontBBox [0 -200 1000 800] /ItalicAngle 0 /Ascent 800 /Descent -200 /CapHeight 700 /StemV 80"},
 	}
 }
 
@@ -344,7 +349,100 @@ func sinkFile(piped map[int]int) []byte {
 		}
 		objs[num] = fmt.Sprintf("<< %s%s /Length %d >>\nstream\n%s\nendstream", o.dict, filter, len(body), string(body))
 	}
-	return simpleFile(objs, 1, "")
+	return simpleFile(objs, 1, " /ID [<0123456789ABCDEF0123456789ABCDEF> <0123456789ABCDEF0123456789ABCDEF>]")
+}
+
+// ---------------------------------------------------------------------------
+// arrays of the wrong length where a fixed arity is expected
+
+var (
+	arrayEntryPat = regexp.MustCompile(`/(\w+)\s*\[([^\[\]]*)\]`)
+	arrayElemPat  = regexp.MustCompile(`\d+\s+\d+\s+R\b|\((?:[^()\\]|\\.)*\)|<<[^<>]*>>|<[0-9A-Fa-f\s]*>|/[^\s/\[\]<>()]*|[^\s\[\]<>()/]+`)
+)
+
+// arityVariants: [], the first element only, all but the last, one more.
+func arityVariants(body string) []string {
+	el := arrayElemPat.FindAllString(body, -1)
+	res := []string{"[]"}
+	if len(el) > 0 {
+		res = append(res, "[ "+el[0]+" ]")
+		res = append(res, "[ "+strings.Join(el[:len(el)-1], " ")+" ]")
+		res = append(res, "[ "+strings.Join(append(append([]string{}, el...), el[len(el)-1]), " ")+" ]")
+	} else {
+		res = append(res, "[ 0 ]")
+	}
+	return res
+}
+
+// arityCorpus: every array of the (light) sink document and of its trailer,
+// in every variant.
+func arityCorpus() []corpusEntry {
+	var res []corpusEntry
+	base := map[int]string{}
+	type site struct {
+		num        int
+		start, end int
+		key        string
+	}
+	var sites []site
+	objs := sinkObjects()
+	nums := make([]int, 0, len(objs))
+	for num := range objs {
+		nums = append(nums, num)
+	}
+	sort.Ints(nums)
+	for _, num := range nums {
+		o := objs[num]
+		switch {
+		case num == 7: // the font program makes the file big; the font goes without
+			continue
+		case o.raw != "":
+			base[num] = o.raw
+		case o.body == nil:
+			base[num] = "<< " + strings.Replace(o.dict, " /FontFile 7 0 R", "", 1) + " >>"
+		default:
+			base[num] = fmt.Sprintf("<< %s /Length %d >>\nstream\n%s\nendstream", o.dict, len(o.body), string(o.body))
+		}
+		if o.raw == "" {
+			dictEnd := len(base[num])
+			if i := strings.Index(base[num], ">>\nstream\n"); i >= 0 {
+				dictEnd = i
+			}
+			for _, m := range arrayEntryPat.FindAllStringSubmatchIndex(base[num][:dictEnd], -1) {
+				sites = append(sites, site{num, m[0], m[1], base[num][m[2]:m[3]]})
+			}
+		}
+	}
+	id := " /ID [<0123456789ABCDEF0123456789ABCDEF> <0123456789ABCDEF0123456789ABCDEF>]"
+	for k, st := range sites {
+		text := base[st.num]
+		body := text[strings.Index(text[st.start:], "[")+st.start+1 : st.end-1]
+		for v, variant := range arityVariants(body) {
+			objs2 := map[int]string{}
+			for n, t := range base {
+				objs2[n] = t
+			}
+			objs2[st.num] = text[:st.start] + "/" + st.key + " " + variant + text[st.end:]
+			res = append(res, corpusEntry{fmt.Sprintf("arity-%s-obj%d-%d-v%d", st.key, st.num, k, v), simpleFile(objs2, 1, id)})
+		}
+	}
+	for v, variant := range []string{"[]", "[<0123456789ABCDEF>]", "[<01> <02> <03>]", "[ 1 ]", "[ (a) ]"} {
+		res = append(res, corpusEntry{fmt.Sprintf("arity-trailer-ID-v%d", v), simpleFile(base, 1, " /ID "+variant)})
+	}
+	return res
+}
+
+// mArrayArity changes the length of one array of the file.
+func mArrayArity(R *rand.Rand, d, _ []byte) ([]byte, string) {
+	ms := arrayEntryPat.FindAllSubmatchIndex(d, 400)
+	if len(ms) == 0 {
+		return mKeyValue(R, d, nil)
+	}
+	m := ms[R.IntN(len(ms))]
+	key := string(d[m[2]:m[3]])
+	vs := arityVariants(string(d[m[4]:m[5]]))
+	out := splice(d, m[0], m[1]-m[0], []byte("/"+key+" "+vs[R.IntN(len(vs))]))
+	return repairXRef(out), "arity:/" + key
 }
 
 func sinkCorpus() []corpusEntry {
